@@ -2,10 +2,12 @@ package spec
 
 import (
 	"go/ast"
+	"go/token"
 	"go/types"
 	"strings"
 
 	"lndlint/internal/an"
+	"lndlint/internal/flow"
 )
 
 func init() {
@@ -44,7 +46,7 @@ func runC15(r *an.Run) {
 	}
 
 	r.Obl("settle-sites-and-their-conditions", "GUARD",
-		"the package's settle-resolution sites are exactly: updateMpp (1), updateLegacy (2), resolveReplayedHtlc (1) through ctx.settleRes, and the two registry fan-outs over HTLCs already in state Settled; each updateMpp / updateLegacy settle site sits below the full condition list of its path, and every accept site of those two functions (an HTLC held for a partial set, a hold invoice or a duplicate) below the conditions that do not depend on completeness (state, address, totals, both expiry margins)",
+		"the package's settle-resolution sites are exactly: updateMpp (1), updateLegacy (2), resolveReplayedHtlc (1) through ctx.settleRes, and the two registry fan-outs over HTLCs already in state Settled; each updateMpp / updateLegacy settle site sits below the full condition list of its path, and every accept site of those two functions (an HTLC held for a partial set, a hold invoice or a duplicate) below the conditions that do not depend on completeness (state, address, totals, both expiry margins); settle and accept resolutions are built only by their constructors, accept resolutions only through ctx.acceptRes in those three functions; the locals the conditions are stated on (totalAmt from the MPP record or ctx.totalAmtMsat, paymentAddr, the set sum, setComplete, the accepted set) are not written again once read and the address bytes are not modified in place; a per-HTLC mismatch (declared total, MPP in progress) ends the update without accept or settle and the set loops skip no HTLC; paymentAddrRequired is the invoice's PaymentAddrRequired feature bit; isValidKeySend is true only for a keysend record whose preimage hashes to ctx.hash; the legacy path releases the invoice-level preimage; the replay lookup is inv.Htlcs[ctx.circuitKey]",
 		"one missing condition releases the preimage for an underpaid, misaddressed, too-late or incomplete set", 30,
 		func(o *an.Obl) {
 			want := map[string]int{iv + "updateMpp": 1, iv + "updateLegacy": 2, iv + "resolveReplayedHtlc": 1}
@@ -81,6 +83,46 @@ func runC15(r *an.Run) {
 			for id := range got {
 				if _, ok := want[id]; !ok {
 					o.FailAt(id+"#unlisted-settle", "", "%s settles but is not in the table", id)
+				}
+			}
+			// who may build a settle / accept resolution at all: the
+			// constructors are the only places with a literal of the types,
+			// the accept constructor is called only by ctx.acceptRes, and
+			// ctx.acceptRes only by the three tabled functions
+			for tn, ctor := range map[string]string{"HtlcSettleResolution": iv + "NewSettleResolution", "htlcAcceptResolution": iv + "newAcceptResolution"} {
+				for _, cl := range p.CompositeLitsOf(p.LookupType("invoices", tn)) {
+					id := "<package level>"
+					if cl.Fn != nil {
+						id = cl.Fn.ID
+					}
+					o.Site("%s literal in %s at %s", tn, id, cl.Where)
+					if id != ctor {
+						o.FailAt(id+"#builds-"+tn, cl.Where, "%s builds a %s with a literal; only %s may (every other site goes through the tabled helpers)", id, tn, ctor)
+					}
+				}
+			}
+			wantAcc := map[string]int{iv + "updateMpp": 2, iv + "updateLegacy": 2, iv + "resolveReplayedHtlc": 1}
+			gotAcc := map[string]int{}
+			for _, f := range p.Funcs(false, "invoices") {
+				for _, s := range f.Calls(an.CalleeIs(iv+"newAcceptResolution"), false) {
+					o.Site("%s", s.String())
+					if f.ID != iv+"invoiceUpdateCtx.acceptRes" {
+						o.FailAt(f.ID+"#new-accept-site", s.Where(), "%s creates an accept resolution directly; the site is not in the table", f.ID)
+					}
+				}
+				for _, s := range f.Calls(an.CalleeIs(iv+"invoiceUpdateCtx.acceptRes"), false) {
+					gotAcc[f.ID]++
+					o.Site("accept site %s", s.String())
+				}
+			}
+			for id, n := range wantAcc {
+				if gotAcc[id] != n {
+					o.FailAt(id+"#accept-count", "", "%s has %d accept sites, the table has %d", id, gotAcc[id], n)
+				}
+			}
+			for id := range gotAcc {
+				if _, ok := wantAcc[id]; !ok {
+					o.FailAt(id+"#unlisted-accept", "", "%s accepts an HTLC but is not in the table", id)
 				}
 			}
 
@@ -182,6 +224,34 @@ func runC15(r *an.Run) {
 				}
 			}
 
+			// the locals the conditions are stated on keep the value that was
+			// checked, and are defined from the payload as documented
+			c15StableOnceRead(o, f, "totalAmt", "paymentAddr", "newSetTotal", "setComplete", "htlcSet", "setID")
+			for _, w := range c15PinnedWrites(o, f, "totalAmt", `^var \$p0\.totalAmtMsat$`, `^= \$p0\.mpp\.TotalMsat\(\)$`) {
+				if w.tok == token.ASSIGN {
+					guarded(o, f, w.site, an.IsNil(an.FieldPath(ctxT, "mpp"), false, "ctx.mpp != nil"))
+				}
+			}
+			addrLocals := []string{"paymentAddr"}
+			for _, s := range f.Assigns(an.LocalNamed("paymentAddr"), false) {
+				addrLocals = append(addrLocals, c15LocalsIn(f, s.Node.(*ast.AssignStmt).Rhs[0])...)
+			}
+			c15NotMutatedInPlace(o, f, []string{"bytes.Equal"}, addrLocals...)
+			// a failed per-HTLC test ends the update, and no HTLC of the set
+			// is skipped by the tests
+			failExit := func(fn *an.Func) func(rs *ast.ReturnStmt) bool {
+				return func(rs *ast.ReturnStmt) bool {
+					return len(rs.Results) >= 2 && an.IsNilIdent(fn.Info(), rs.Results[0]) && c15HasCallTo(fn.Info(), rs.Results[1], iv+"invoiceUpdateCtx.failRes")
+				}
+			}
+			mppSites := append(append([]an.Site{}, accs...), f.Calls(an.CalleeIs(iv+"invoiceUpdateCtx.settleRes"), false)...)
+			c15FactStops(o, f, an.CmpX(total, an.NE, an.FieldPath(nil, "MppTotalAmt"), "totalAmt != htlc.MppTotalAmt"), mppSites, "accept or settle")
+			if hds := c15RangeHeads(f, `\.HTLCSet\(`); len(hds) != 1 {
+				o.FailAt(f.ID+"#set-loops", f.Where(f.Body.Pos()), "expected one loop over the HTLC set in %s, found %d", f.ID, len(hds))
+			} else {
+				c15LoopLeftOnlyBy(o, f, hds[0], "set members", failExit(f))
+			}
+
 			// updateLegacy
 			g := p.Func(iv + "updateLegacy")
 			legacyCommon := func(s an.Site) {
@@ -237,8 +307,63 @@ func runC15(r *an.Run) {
 				}
 			}
 
+			// an accepted HTLC that declares an MPP total ends the legacy
+			// update (the rejection is returned, not merely computed), and
+			// every accepted HTLC is looked at
+			lsettles := g.Calls(an.CalleeIs(iv+"invoiceUpdateCtx.settleRes"), false)
+			c15FactStops(o, g, an.Cmp(an.FieldPath(nil, "MppTotalAmt"), an.GT, an.IntConst(0), "htlc.MppTotalAmt > 0"), append(append([]an.Site{}, laccs...), lsettles...), "accept or settle")
+			if hds := c15RangeHeads(g, `\.HTLCSet\(`); len(hds) != 1 {
+				o.FailAt(g.ID+"#set-loops", g.Where(g.Body.Pos()), "expected one loop over the accepted HTLCs in %s, found %d", g.ID, len(hds))
+			} else {
+				c15LoopLeftOnlyBy(o, g, hds[0], "accepted HTLCs", failExit(g))
+			}
+			// what "payment address required" means, and the released preimage
+			c15PinnedWrites(o, g, "paymentAddrRequired", `^:= \$p1\.Terms\.Features\.RequiresFeature\(lnwire\.PaymentAddrRequired\)$`)
+			c15StableOnceRead(o, g, "paymentAddrRequired", "preimage")
+			for _, s := range lsettles {
+				if a := g.ArgCanon(s); a[0] != "*$p1.Terms.PaymentPreimage" {
+					o.FailAt(g.ID+"#legacy-preimage", s.Where(), "the legacy path releases %s, expected the invoice-level preimage", a[0])
+				}
+			}
+			// isValidKeySend: true only for a well-formed keysend record whose
+			// preimage hashes to the HTLC's payment hash
+			ks := p.Func(iv + "isValidKeySend")
+			nTrue := 0
+			for _, s := range ks.Returns() {
+				rs := s.Node.(*ast.ReturnStmt)
+				c := ks.Canon(rs.Results[0])
+				o.Site("isValidKeySend returns %s at %s", c, s.Where())
+				if c == "false" {
+					continue
+				}
+				nTrue++
+				mk := ks.Calls(an.CalleeIs("lntypes.MakePreimage"), false)
+				if !needExactly(o, ks, "lntypes.MakePreimage", mk, 1) {
+					continue
+				}
+				arg := ks.Canon(callArg(mk[0], 0))
+				want := "(lntypes.MakePreimage(" + arg + ").Hash() == $p0.hash)"
+				if c != want {
+					o.FailAt(ks.ID+"#verdict", s.Where(), "isValidKeySend answers %s, expected %s (the keysend preimage hashes to the payment hash)", c, want)
+				}
+				mustPass(o, ks, "lntypes.MakePreimage", mk, an.OkErrNil, []an.Site{s})
+				for _, nm := range c15LocalsIn(ks, callArg(mk[0], 0)) {
+					c15PinnedWrites(o, ks, nm, `^:= \$p0\.customRecords\[record\.KeySendType\]$`)
+					c15StableOnceRead(o, ks, nm)
+				}
+				if len(c15LocalsIn(ks, callArg(mk[0], 0))) == 0 && arg != "$p0.customRecords[record.KeySendType]" {
+					o.FailAt(ks.ID+"#record", mk[0].Where(), "the keysend preimage is read from %s", arg)
+				}
+			}
+			if nTrue != 1 {
+				o.FailAt(ks.ID+"#verdicts", ks.Where(ks.Body.Pos()), "isValidKeySend has %d non-false verdicts, expected one", nTrue)
+			}
+
 			// replay
 			h := p.Func(iv + "resolveReplayedHtlc")
+			c15PinnedWrites(o, h, "replayedHTLC", `^:= \$p1\.Htlcs\[\$p0\.circuitKey\]#1$`)
+			c15PinnedWrites(o, h, "htlc", `^:= \$p1\.Htlcs\[\$p0\.circuitKey\]$`)
+			c15StableOnceRead(o, h, "htlc", "replayedHTLC", "preimage")
 			hs := an.FieldPath(an.LocalNamed("htlc"), "State")
 			for _, c := range []struct{ callee, st string }{
 				{"failRes", "HtlcStateCanceled"}, {"acceptRes", "HtlcStateAccepted"}, {"settleRes", "HtlcStateSettled"},
@@ -262,7 +387,7 @@ func runC15(r *an.Run) {
 		})
 
 	r.Obl("amp-preimages-only-when-all-children-match", "GUARD",
-		"reconstructAMPPreimages returns preimages only below `ctx.hash == children[0].Hash` and, for every other child, `htlc.AMP.Hash == child.Hash`; the new HTLC's preimage is children[0].Preimage; updateMpp uses the result only when no fail resolution came back",
+		"reconstructAMPPreimages returns preimages only below `ctx.hash == children[0].Hash` and, for every other child, `htlc.AMP.Hash == child.Hash`; the new HTLC's preimage is children[0].Preimage; updateMpp uses the result only when no fail resolution came back: both results of the one reconstruction call (made for this HTLC's context and the accepted set) are bound, never overwritten, and the preimages are read only below `failRes == nil` of that bound result; the compared HTLC of child idx is htlcSet[indexToCircuitKey[idx]] and it is compared with that very child; no loop of the reconstruction is left early except with the fail resolution; the returned map is made once, written only by the two tabled assignments and has no second name",
 		"a preimage derived from shares that do not reproduce an HTLC's payment hash cannot claim that HTLC; settling the set anyway loses the others", 4,
 		func(o *an.Obl) {
 			f := p.Func(iv + "reconstructAMPPreimages")
@@ -278,11 +403,58 @@ func runC15(r *an.Run) {
 			for _, s := range f.Calls(an.CalleeIs(iv+"invoiceUpdateCtx.failRes"), false) {
 				if enclosingLoopHeader(f, s.Node) != "" {
 					n++
-					guarded(o, f, s, an.CmpX(an.FieldPath(an.FieldPath(nil, "AMP"), "Hash"), an.NE, an.FieldPath(nil, "Hash"), "htlc.AMP.Hash != child.Hash"))
+					// the HTLC at the child's position against that very child
+					guarded(o, f, s, an.CmpX(
+						canonTerm(`^\$p1\[.*\[\$key\(amp\.ReconstructChildren\(.*\)\[1:\]\)\]\]\.AMP\.Hash$`), an.NE,
+						canonTerm(`^\$elem\(amp\.ReconstructChildren\(.*\)\[1:\]\)\.Hash$`), "htlc.AMP.Hash != child.Hash"))
 				}
 			}
 			if n != 1 {
 				o.FailAt(f.ID+"#child-check", f.Where(f.Body.Pos()), "expected one per-child hash check, found %d", n)
+			}
+			// no child is skipped: the loops end only when exhausted or with
+			// the fail resolution
+			for _, hd := range c15RangeHeads(f, `.`) {
+				c15LoopLeftOnlyBy(o, f, hd, "children and set members", func(rs *ast.ReturnStmt) bool {
+					return len(rs.Results) == 2 && an.IsNilIdent(f.Info(), rs.Results[0]) && c15HasCallTo(f.Info(), rs.Results[1], iv+"invoiceUpdateCtx.failRes")
+				})
+			}
+			// the returned map: made once, written only by the two tabled
+			// assignments, handed out under no other name
+			var retObj types.Object
+			for _, s := range f.Returns() {
+				rs := s.Node.(*ast.ReturnStmt)
+				if an.IsNilIdent(f.Info(), rs.Results[0]) {
+					continue
+				}
+				id, ok := ast.Unparen(rs.Results[0]).(*ast.Ident)
+				if !ok || f.Info().Uses[id] == nil || (retObj != nil && retObj != f.Info().Uses[id]) {
+					o.FailAt(f.ID+"#returned-map", s.Where(), "reconstructAMPPreimages returns %s, expected the one map the checked preimages were stored in", an.Text(rs.Results[0]))
+					continue
+				}
+				retObj = f.Info().Uses[id]
+			}
+			sameMap := func(e ast.Expr) bool {
+				t := f.Info().TypeOf(e)
+				return t != nil && len(f.Results()) > 0 && types.Identical(types.Unalias(t), types.Unalias(f.Results()[0]))
+			}
+			if retObj != nil {
+				c15PinnedWrites(o, f, retObj.Name(), `^:= make\(`)
+				ast.Inspect(f.Body, func(n ast.Node) bool {
+					switch x := n.(type) {
+					case *ast.AssignStmt:
+						for _, r := range x.Rhs {
+							if c15IdentIs(f.Info(), r, retObj) {
+								o.FailAt(f.ID+"#map-aliased", f.Where(x.Pos()), "the preimage map gets a second name by `%s`", an.Text(x))
+							}
+						}
+					case *ast.CallExpr:
+						if id := an.CalleeID(f.Info(), x); (id == "builtin.delete" || id == "builtin.clear") && len(x.Args) > 0 && sameMap(x.Args[0]) {
+							o.FailAt(f.ID+"#map-entries-removed", f.Where(x.Pos()), "entries of the preimage map are removed by `%s`", an.Text(x))
+						}
+					}
+					return true
+				})
 			}
 			// which preimage goes to which HTLC: the new HTLC (child 0, whose
 			// hash was compared with ctx.hash) and, for the others, the
@@ -296,10 +468,13 @@ func runC15(r *an.Run) {
 						continue
 					}
 					ix, ok := n.Lhs[0].(*ast.IndexExpr)
-					if !ok || an.Text(ix.X) != "htlcPreimages" {
+					if !ok || !sameMap(ix.X) {
 						continue
 					}
 					nPre++
+					if !c15IdentIs(f.Info(), ix.X, retObj) || n.Tok != token.ASSIGN {
+						o.FailAt(f.ID+"#preimage-map", f.Where(n.Pos()), "`%s` writes a preimage into %s, not (plainly) into the returned map", an.Text(n), an.Text(ix.X))
+					}
 					k, val := f.Canon(ix.Index), f.Canon(n.Rhs[0])
 					o.Site("htlcPreimages[%s] = %s", k, val)
 					switch {
@@ -338,17 +513,55 @@ func runC15(r *an.Run) {
 				o.FailAt(f.ID+"#preimage-sites", f.Where(f.Body.Pos()), "expected 2 preimage assignments, found %d", nPre)
 			}
 			g := p.Func(iv + "updateMpp")
+			// both results of the reconstruction are bound, the call is made
+			// for this HTLC and the accepted set, and the preimages are used
+			// only when the bound fail resolution is nil
+			var preObj, failObj types.Object
+			rc := g.Calls(an.CalleeIs(iv+"reconstructAMPPreimages"), false)
+			if needExactly(o, g, "reconstructAMPPreimages", rc, 1) {
+				if a := g.ArgCanon(rc[0]); a[0] != "$p0" || a[1] != "$p1.HTLCSet($p0.setID(), invoices.HtlcStateAccepted)" {
+					o.FailAt(g.ID+"#reconstruct-args", rc[0].Where(), "the preimages are reconstructed for (%s, %s), expected this HTLC's context and the accepted set", a[0], a[1])
+				}
+				preObj, failObj = c15LhsObj(g, rc[0], 0), c15LhsObj(g, rc[0], 1)
+				if preObj == nil || failObj == nil {
+					o.FailAt(g.ID+"#reconstruct-results", rc[0].Where(), "a result of reconstructAMPPreimages is discarded (%s): the fail resolution must be tested before the preimages are used", an.Text(rc[0].Node))
+				} else {
+					c15StableOnceRead(o, g, preObj.Name(), failObj.Name())
+					c15PinnedWrites(o, g, preObj.Name(), "", `^= invoices\.reconstructAMPPreimages\(`)
+					c15PinnedWrites(o, g, failObj.Name(), "", `^= invoices\.reconstructAMPPreimages\(.*#1$`)
+				}
+			}
 			for _, s := range g.Assigns(an.LocalNamed("htlcPreimage"), false) {
 				as := s.Node.(*ast.AssignStmt)
 				c := an.Text(as.Rhs[0])
 				o.Site("htlcPreimage <- %s", c)
-				switch c {
-				case "htlcPreimages[ctx.circuitKey]":
-					guarded(o, g, s, an.IsNil(an.LocalNamed("failRes"), true, "failRes == nil"))
-				case "*inv.Terms.PaymentPreimage":
+				ix, isIx := ast.Unparen(as.Rhs[0]).(*ast.IndexExpr)
+				switch {
+				case isIx && preObj != nil && c15IdentIs(g.Info(), ix.X, preObj) && g.Canon(ix.Index) == "$p0.circuitKey":
+					guarded(o, g, s, an.IsNil(c15LocalTerm(failObj), true, "failRes == nil"))
+					before(o, g, "reconstructAMPPreimages", rc, "use of the preimages", []an.Site{s})
+				case g.Canon(as.Rhs[0]) == "*$p1.Terms.PaymentPreimage":
 					guarded(o, g, s, an.IsNil(an.FieldPath(ctxT, "amp"), true, "ctx.amp == nil"))
 				default:
 					o.FailAt(g.ID+"#preimage-source", s.Where(), "the released preimage is %s", c)
+				}
+			}
+			c15StableOnceRead(o, g, "htlcPreimage")
+			for _, s := range g.Calls(an.CalleeIs(iv+"invoiceUpdateCtx.settleRes"), false) {
+				if !an.Match(g, an.LocalNamed("htlcPreimage"), callArg(s, 0)) {
+					o.FailAt(g.ID+"#released-preimage", s.Where(), "updateMpp releases %s", an.Text(callArg(s, 0)))
+				}
+			}
+			// the per-HTLC preimages persisted with the settle are the bound map
+			for _, cl := range p.CompositeLitsOf(p.LookupType("invoices", "InvoiceStateUpdateDesc")) {
+				if cl.Fn == nil || cl.Fn.ID != g.ID {
+					continue
+				}
+				if v, ok := c15LitKeys(cl.Node.(*ast.CompositeLit))["HTLCPreimages"]; ok {
+					o.Site("persisted HTLCPreimages = %s", an.Text(v))
+					if preObj == nil || !c15IdentIs(g.Info(), v, preObj) {
+						o.FailAt(g.ID+"#persisted-preimages", g.Where(v.Pos()), "the settle descriptor persists %s, expected the reconstructed preimages", an.Text(v))
+					}
 				}
 			}
 		})
@@ -409,7 +622,7 @@ func runC15(r *an.Run) {
 		})
 
 	r.Obl("states-only-move-forward", "TABLE",
-		"getUpdatedInvoiceState returns a new state only from Open or Accepted, never Open as target, never Accepted from Accepted; getUpdatedHtlcState yields Canceled only below invoice state Canceled and not for a Settled HTLC, and Settled only for an Accepted HTLC; canCancelSingleHtlc permits only an Accepted HTLC of an Open invoice; invoice.State and htlc.State are written only by the appliers after the updater accepted the change",
+		"getUpdatedInvoiceState returns a new state only from Open or Accepted, never Open as target, never Accepted from Accepted; getUpdatedHtlcState yields Canceled only below invoice state Canceled and not for a Settled HTLC, and Settled only for an Accepted HTLC; canCancelSingleHtlc permits only an Accepted HTLC of an Open invoice; invoice.State and htlc.State are written only by the appliers after the updater accepted the change, with exactly the value handed to the updater, never through a pointer to the field; the invoice state handed to the updater is the one getUpdatedInvoiceState validated for that invoice (its result, or a constant below `newState != nil && *newState == constant`); outside trySettle getUpdatedHtlcState hands out only the HTLC's own state (with changed == false) or Canceled; trySettle is called with the constant true only below invoice state Settled and the constant false otherwise, its flags persist / settled / newState are written only by the tabled statements; addHTLCs decides for invoice.State, or for Settled only below settleEligibleAMP (= the update carries HTLC preimages); cancelHTLCs asks canCancelSingleHtlc about the HTLC it cancels and the invoice's current state",
 		"a backward or sideways transition un-settles a paid invoice or settles a canceled HTLC (both settled and canceled)", 14,
 		func(o *an.Obl) {
 			f := p.Func(iv + "getUpdatedInvoiceState")
@@ -433,14 +646,56 @@ func runC15(r *an.Run) {
 				o.FailAt(f.ID+"#returns", f.Where(f.Body.Pos()), "expected 3 state-returning exits, found %d", k)
 			}
 			g := p.Func(iv + "getUpdatedHtlcState")
+			// the parameters (and trySettle's) stand for the same value throughout
+			var gParams []string
+			for _, fn := range append([]*an.Func{g}, g.Lits...) {
+				for _, pv := range fn.Params(false) {
+					if pv != nil && pv.Name() != "" && pv.Name() != "_" {
+						gParams = append(gParams, pv.Name())
+					}
+				}
+			}
+			notReassigned(o, g, gParams...)
+			isTrySettle := func(e ast.Expr) (*ast.CallExpr, bool) {
+				c, ok := ast.Unparen(e).(*ast.CallExpr)
+				if !ok || len(c.Args) != 1 {
+					return nil, false
+				}
+				id, ok := c.Fun.(*ast.Ident)
+				if !ok || len(g.Lits) != 1 {
+					return nil, false
+				}
+				fl, _ := g.UniqueDef(id).(*ast.FuncLit)
+				return c, fl != nil && fl == g.Lits[0].Lit
+			}
 			for _, s := range g.Returns() {
 				rs := s.Node.(*ast.ReturnStmt)
+				if len(rs.Results) == 1 {
+					// the verdict is delegated: only to trySettle
+					if _, ok := isTrySettle(rs.Results[0]); !ok {
+						o.FailAt(g.ID+"#delegated-verdict", s.Where(), "getUpdatedHtlcState hands out the verdict of %s, expected trySettle", an.Text(rs.Results[0]))
+					}
+					continue
+				}
 				if len(rs.Results) != 3 {
 					continue
 				}
-				if an.Text(rs.Results[1]) == "HtlcStateCanceled" {
+				ch, st := g.Canon(rs.Results[0]), g.Canon(rs.Results[1])
+				o.Site("getUpdatedHtlcState exit (changed=%s, state=%s) at %s", ch, st, s.Where())
+				switch st {
+				case "$p0.State":
+					// the HTLC keeps its state: no change may be reported
+					if ch != "false" {
+						o.FailAt(g.ID+"#change-without-state", s.Where(), "`%s` reports a change (%s) while handing back the HTLC's own state", an.Text(rs), ch)
+					}
+				case iv + "HtlcStateCanceled":
 					guarded(o, g, s, an.Cmp(an.Param(1), an.EQ, cst("ContractCanceled"), "invoiceState == ContractCanceled"))
 					guarded(o, g, s, an.Cmp(an.FieldPath(an.Param(0), "State"), an.NE, cst("HtlcStateSettled"), "htlc.State != HtlcStateSettled"))
+					if ch != "!($p0.State == "+iv+"HtlcStateCanceled)" {
+						o.FailAt(g.ID+"#cancel-verdict", s.Where(), "the cancel verdict is %s, expected 'not canceled yet'", ch)
+					}
+				default:
+					o.FailAt(g.ID+"#target-state", s.Where(), "getUpdatedHtlcState itself yields HTLC state %s (`%s`); outside trySettle only the HTLC's own state or Canceled may be handed out", st, an.Text(rs))
 				}
 			}
 			nSet := 0
@@ -465,6 +720,30 @@ func runC15(r *an.Run) {
 			if nSet != 1 {
 				o.FailAt(g.ID+"#settle-site", g.Where(g.Body.Pos()), "expected one place that yields HtlcStateSettled, found %d", nSet)
 			}
+			for _, lf := range g.Lits {
+				// the flags and the state trySettle hands out are written only
+				// by the tabled statements
+				c15PinnedWrites(o, lf, "settled", `^:= false$`, `^= true$`)
+				c15PinnedWrites(o, lf, "newState", `^:= \$p0\.State$`, `^= invoices\.HtlcStateSettled$`)
+				for _, s := range lf.Returns() {
+					rs := s.Node.(*ast.ReturnStmt)
+					if len(rs.Results) != 3 {
+						o.FailAt(g.ID+"#trysettle-exit", s.Where(), "trySettle exits with `%s`", an.Text(rs))
+						continue
+					}
+					ch, st := lf.Canon(rs.Results[0]), lf.Canon(rs.Results[1])
+					switch {
+					case an.Text(rs.Results[1]) == "newState" && len(c15ObjsNamed(lf, "newState")) == 1:
+						// verdict checked below
+					case st == "$p0.State":
+						if ch != "false" {
+							o.FailAt(g.ID+"#trysettle-change-without-state", s.Where(), "`%s` reports a change (%s) while handing back the HTLC's own state", an.Text(rs), ch)
+						}
+					default:
+						o.FailAt(g.ID+"#trysettle-target-state", s.Where(), "trySettle yields HTLC state %s (`%s`) outside its tabled settle site", st, an.Text(rs))
+					}
+				}
+			}
 			// the "changed" verdict of trySettle: only when persisting and settled
 			nCh := 0
 			for _, lf := range g.Lits {
@@ -486,11 +765,49 @@ func runC15(r *an.Run) {
 				o.FailAt(g.ID+"#changed-site", g.Where(g.Body.Pos()), "expected one return of the new state in trySettle, found %d", nCh)
 			}
 			// trySettle(true) only under ContractSettled
+			nTry := 0
 			for _, s := range g.AllCalls(false) {
-				c := s.Node.(*ast.CallExpr)
-				if id, ok := c.Fun.(*ast.Ident); ok && id.Name == "trySettle" && an.Text(c.Args[0]) == "true" {
-					guarded(o, g, s, an.Cmp(an.Param(1), an.EQ, cst("ContractSettled"), "invoiceState == ContractSettled"))
+				c, ok := isTrySettle(s.Node.(*ast.CallExpr))
+				if !ok {
+					continue
 				}
+				nTry++
+				o.Site("%s", s.String())
+				switch {
+				case an.BoolConst(true)(g, ast.Unparen(c.Args[0])):
+					guarded(o, g, s, an.Cmp(an.Param(1), an.EQ, cst("ContractSettled"), "invoiceState == ContractSettled"))
+				case an.BoolConst(false)(g, ast.Unparen(c.Args[0])):
+				default:
+					o.FailAt(g.ID+"#persist-flag", s.Where(), "trySettle is asked to persist when %s; the flag is the constant true below invoice state Settled and false otherwise", an.Text(c.Args[0]))
+				}
+			}
+			if nTry != 2 {
+				o.FailAt(g.ID+"#trysettle-calls", g.Where(g.Body.Pos()), "expected 2 calls of trySettle (Settled: persist, Accepted: check only), found %d", nTry)
+			}
+			// addHTLCs decides for the invoice's current state, or for Settled
+			// when the AMP preimages of the set came with the update
+			fa := p.Func(iv + "addHTLCs")
+			for _, gs := range fa.Calls(an.CalleeIs(iv+"getUpdatedHtlcState"), false) {
+				names := c15LocalsIn(fa, callArg(gs, 1))
+				if len(names) == 0 {
+					if c := fa.Canon(callArg(gs, 1)); c != "$p0.State" {
+						o.FailAt(fa.ID+"#decision-state", gs.Where(), "addHTLCs asks getUpdatedHtlcState about invoice state %s", c)
+					}
+				}
+				for _, nm := range names {
+					for _, w := range c15PinnedWrites(o, fa, nm, `^:= \$p0\.State$`, `^= invoices\.ContractSettled$`) {
+						if w.tok == token.ASSIGN {
+							guarded(o, fa, w.site, an.Truth(an.LocalNamed("settleEligibleAMP"), true, "settleEligibleAMP"))
+						}
+					}
+					c15StableOnceRead(o, fa, nm)
+				}
+			}
+			c15PinnedWrites(o, fa, "settleEligibleAMP", "", `^= \(len\(\$p3\.State\.HTLCPreimages\) != 0\)$`)
+			c15StableOnceRead(o, fa, "settleEligibleAMP")
+			for _, nm := range []string{"State"} {
+				c15NoAddressOfField(o, p, []string{"invoices"}, iv+"Invoice", nm)
+				c15NoAddressOfField(o, p, []string{"invoices"}, iv+"InvoiceHTLC", nm)
 			}
 			cc := p.Func(iv + "canCancelSingleHtlc")
 			for _, s := range cc.Returns() {
@@ -512,13 +829,46 @@ func runC15(r *an.Run) {
 						o.FailAt(fn.ID+"#writes-invoice-state", s.Where(), "%s writes Invoice.State outside the appliers", fn.ID)
 						continue
 					}
-					mustPass(o, fn, need_, fn.Calls(an.CalleeNamed(need_), false), an.OkErrNil, []an.Site{s})
+					ups := fn.Calls(an.CalleeNamed(need_), false)
+					mustPass(o, fn, need_, ups, an.OkErrNil, []an.Site{s})
+					if !needExactly(o, fn, need_, ups, 1) {
+						continue
+					}
+					// memory gets the state the updater accepted
+					c15MemoryMirrors(o, fn, s, ups[0], 0, "Invoice.State")
+					// and that state is the one getUpdatedInvoiceState validated for this invoice
+					gus := fn.Calls(an.CalleeIs(iv+"getUpdatedInvoiceState"), false)
+					mustPass(o, fn, "getUpdatedInvoiceState", gus, an.OkErrNil, ups)
+					for _, gu := range gus {
+						if a := fn.ArgCanon(gu); a[0] != "$p0" {
+							o.FailAt(fn.ID+"#validated-invoice", gu.Where(), "the transition is validated for %s, the state is written to the invoice parameter", a[0])
+						}
+					}
+					validated := an.ResultOf(an.CallTo(iv+"getUpdatedInvoiceState", nil), 0)
+					switch st := fn.Canon(callArg(ups[0], 0)); {
+					case strings.HasPrefix(st, "*"+iv+"getUpdatedInvoiceState("):
+					case strings.HasPrefix(st, iv+"Contract"):
+						guarded(o, fn, ups[0], an.IsNil(validated, false, "the validated state is not nil"))
+						guarded(o, fn, ups[0], an.Cmp(validated, an.EQ, cst(strings.TrimPrefix(st, iv)), "the validated state == "+strings.TrimPrefix(st, iv)))
+					default:
+						o.FailAt(fn.ID+"#unvalidated-state", ups[0].Where(), "%s stores invoice state %s, which is not the state getUpdatedInvoiceState validated", fn.ID, st)
+					}
 				}
 				for _, s := range fn.Assigns(an.Field(iv+"InvoiceHTLC", "State", nil), false) {
 					o.Site("htlc state writer %s", s.String())
 					switch {
 					case fn.ID == iv+"resolveHtlc":
-						mustPass(o, fn, "updater.ResolveHtlc", fn.Calls(an.CalleeNamed("ResolveHtlc"), false), an.OkErrNil, []an.Site{s})
+						rcs := fn.Calls(an.CalleeNamed("ResolveHtlc"), false)
+						mustPass(o, fn, "updater.ResolveHtlc", rcs, an.OkErrNil, []an.Site{s})
+						if needExactly(o, fn, "updater.ResolveHtlc", rcs, 1) {
+							c15MemoryMirrors(o, fn, s, rcs[0], 1, "InvoiceHTLC.State")
+							if a := fn.ArgCanon(rcs[0]); a[0] != "$p0" || a[1] != "$p2" {
+								o.FailAt(fn.ID+"#resolve-args", rcs[0].Where(), "resolveHtlc records (%s, %s) with the updater, expected its own circuit key and state parameters", a[0], a[1])
+							}
+							if c := fn.Canon(s.Node.(*ast.AssignStmt).Lhs[0]); c != "$p1.State" {
+								o.FailAt(fn.ID+"#resolve-target", s.Where(), "resolveHtlc writes %s, expected the state of its HTLC parameter", c)
+							}
+						}
 					case strings.Contains(fn.ID, "sql") || strings.Contains(fn.ID, "SQL") || strings.Contains(fn.ID, "Migrat") || strings.Contains(fn.ID, "unmarshal"):
 					default:
 						o.FailAt(fn.ID+"#writes-htlc-state", s.Where(), "%s writes InvoiceHTLC.State outside resolveHtlc", fn.ID)
@@ -544,6 +894,8 @@ func runC15(r *an.Run) {
 						}
 						if rw.changed != "" {
 							guarded(o, fn, s, an.Truth(an.LocalNamed(rw.changed), true, rw.changed+" (getUpdatedHtlcState reported a change)"))
+							// the flag is the first result of that decision and nothing else
+							c15PinnedWrites(o, fn, rw.changed, `^:= invoices\.getUpdatedHtlcState\(.*\)$`)
 						}
 						for _, gs := range fn.Calls(an.CalleeIs(iv+"getUpdatedHtlcState"), false) {
 							ga := fn.ArgCanon(gs)
@@ -558,7 +910,18 @@ func runC15(r *an.Run) {
 					}
 					switch fn.ID {
 					case iv + "cancelHTLCs":
-						mustPass(o, fn, "canCancelSingleHtlc", fn.Calls(an.CalleeIs(iv+"canCancelSingleHtlc"), false), an.OkErrNil, []an.Site{s})
+						ccs := fn.Calls(an.CalleeIs(iv+"canCancelSingleHtlc"), false)
+						mustPass(o, fn, "canCancelSingleHtlc", ccs, an.OkErrNil, []an.Site{s})
+						for _, cs := range ccs {
+							ca := fn.ArgCanon(cs)
+							o.Site("%s asks canCancelSingleHtlc about htlc=%s invoice state=%s", fn.ID, ca[0], ca[1])
+							if ca[0] != a[1] {
+								o.FailAt(fn.ID+"#cancel-decision-htlc", cs.Where(), "%s asks about %s but cancels %s", fn.ID, ca[0], a[1])
+							}
+							if ca[1] != "$p0.State" {
+								o.FailAt(fn.ID+"#cancel-decision-state", cs.Where(), "%s asks canCancelSingleHtlc about invoice state %s, expected the invoice's current state", fn.ID, ca[1])
+							}
+						}
 					case iv + "addHTLCs", iv + "settleHodlInvoice", iv + "cancelInvoice":
 						mustPass(o, fn, "getUpdatedHtlcState", fn.Calls(an.CalleeIs(iv+"getUpdatedHtlcState"), false), an.OkErrNil, []an.Site{s})
 					default:
@@ -569,7 +932,7 @@ func runC15(r *an.Run) {
 		})
 
 	r.Obl("amount-paid-from-htlc-amounts", "WHO",
-		"Invoice.AmtPaid is written only by updateInvoiceAmtPaid after the updater accepted it (loaders and copies aside); addHTLCs accumulates only HTLC amounts, for a non-AMP invoice only of Accepted/Settled HTLCs once the invoice left Open",
+		"Invoice.AmtPaid is written only by updateInvoiceAmtPaid after the updater accepted it (loaders and copies aside); addHTLCs accumulates only HTLC amounts, for a non-AMP invoice only of Accepted/Settled HTLCs once the invoice left Open; updateInvoiceAmtPaid sets memory (plain `=`) to the amount it handed to the updater and no address of the field is taken; it is called only with the running sums of addHTLCs / settleHodlInvoice (locals that are declared without value and only ever grow by HTLC amounts, for AMP by the amount already paid) and by cancelHtlcsAmp with paid minus the canceled HTLC; invoiceIsAMP is invoice.IsAMP(); the HTLC state is read for the tally only after resolveHtlc applied this update's transition",
 		"an amount paid that is not the sum of the settled HTLCs misreports what the invoice received", 5,
 		func(o *an.Obl) {
 			for _, fn := range p.Funcs(false, "invoices") {
@@ -579,10 +942,90 @@ func runC15(r *an.Run) {
 						o.FailAt(fn.ID+"#writes-amtpaid", s.Where(), "%s writes Invoice.AmtPaid", fn.ID)
 						continue
 					}
-					mustPass(o, fn, "updater.UpdateInvoiceAmtPaid", fn.Calls(an.CalleeNamed("UpdateInvoiceAmtPaid"), false), an.OkErrNil, []an.Site{s})
+					ups := fn.Calls(an.CalleeNamed("UpdateInvoiceAmtPaid"), false)
+					mustPass(o, fn, "updater.UpdateInvoiceAmtPaid", ups, an.OkErrNil, []an.Site{s})
+					if needExactly(o, fn, "updater.UpdateInvoiceAmtPaid", ups, 1) {
+						// memory is set to the amount the updater accepted
+						c15MemoryMirrors(o, fn, s, ups[0], 0, "Invoice.AmtPaid")
+						if a := fn.ArgCanon(ups[0]); a[0] != "$p1" {
+							o.FailAt(fn.ID+"#stored-amount", ups[0].Where(), "updateInvoiceAmtPaid stores %s, expected its amount parameter", a[0])
+						}
+						if c := fn.Canon(s.Node.(*ast.AssignStmt).Lhs[0]); c != "$p0.AmtPaid" {
+							o.FailAt(fn.ID+"#amount-target", s.Where(), "updateInvoiceAmtPaid writes %s, expected the amount of its invoice parameter", c)
+						}
+					}
+				}
+			}
+			c15NoAddressOfField(o, p, []string{"invoices"}, iv+"Invoice", "AmtPaid")
+			// who hands which amount to the applier: the running sums of
+			// addHTLCs / settleHodlInvoice (locals that only ever grow by HTLC
+			// amounts, for AMP by the amount already paid) and the AMP
+			// cancellation's "paid minus this HTLC"
+			for _, fn := range p.Funcs(false, "invoices") {
+				for _, s := range fn.Calls(an.CalleeIs(iv+"updateInvoiceAmtPaid"), false) {
+					a := fn.ArgCanon(s)
+					o.Site("%s hands %s to updateInvoiceAmtPaid", fn.ID, an.Text(callArg(s, 1)))
+					if a[0] != "$p0" {
+						o.FailAt(fn.ID+"#amount-invoice", s.Where(), "%s updates the amount of %s, expected its invoice parameter", fn.ID, a[0])
+					}
+					sums := map[string][]string{
+						iv + "addHTLCs":          {"", `^\+= \$elem\(\$p0\.Htlcs\)\.Amt$`, `^\+= \$p0\.AmtPaid$`},
+						iv + "settleHodlInvoice": {"", `^\+= \$elem\(\$p0\.Htlcs\)\.Amt$`},
+					}
+					switch allowed, isSum := sums[fn.ID]; {
+					case isSum:
+						id, ok := ast.Unparen(callArg(s, 1)).(*ast.Ident)
+						if !ok || len(c15LocalsIn(fn, id)) != 1 {
+							o.FailAt(fn.ID+"#amount-not-the-sum", s.Where(), "%s hands %s to updateInvoiceAmtPaid, expected its running sum of HTLC amounts", fn.ID, an.Text(callArg(s, 1)))
+							continue
+						}
+						c15PinnedWrites(o, fn, id.Name, allowed...)
+					case fn.ID == iv+"cancelHtlcsAmp":
+						if a[1] != "($p0.AmtPaid - $p2.Amt)" {
+							o.FailAt(fn.ID+"#amount-after-cancel", s.Where(), "cancelHtlcsAmp sets the amount paid to %s, expected the amount paid minus the canceled HTLC", a[1])
+						}
+					default:
+						o.FailAt(fn.ID+"#amount-caller", s.Where(), "%s calls updateInvoiceAmtPaid; the caller is not in the table", fn.ID)
+					}
 				}
 			}
 			f := p.Func(iv + "addHTLCs")
+			// an AMP invoice is one that says so; the flag is set once
+			c15PinnedWrites(o, f, "invoiceIsAMP", `^:= \$p0\.IsAMP\(\)$`)
+			// the HTLC's state is read for the tally only after this update's
+			// own transition of that HTLC was applied
+			var htlcLoop []*flow.Vertex
+			for _, hd := range c15RangeHeads(f, `^\$p0\.Htlcs$`) {
+				htlcLoop = append(htlcLoop, hd)
+			}
+			if len(htlcLoop) != 1 {
+				o.FailAt(f.ID+"#htlc-loop", f.Where(f.Body.Pos()), "expected one loop over invoice.Htlcs in addHTLCs, found %d", len(htlcLoop))
+			} else {
+				stateField := an.Field(iv+"InvoiceHTLC", "State", nil)
+				resolves := f.Calls(an.CalleeIs(iv+"resolveHtlc"), false)
+				for _, v := range f.Graph().V {
+					reads := false
+					v.Inspect(false, func(n ast.Node) bool {
+						if e, ok := n.(ast.Expr); ok && stateField(f, e) {
+							reads = true
+						}
+						return !reads
+					})
+					if as, ok := v.Node.(*ast.AssignStmt); ok && len(as.Lhs) == 1 && stateField(f, ast.Unparen(as.Lhs[0])) {
+						reads = false
+					}
+					if !reads {
+						continue
+					}
+					o.Site("%s reads the HTLC state at %s", f.ID, f.Where(v.Pos()))
+					after := f.Graph().Reach(v, nil, map[*flow.Vertex]bool{htlcLoop[0]: true})
+					for _, rc := range resolves {
+						if after[rc.V] && rc.V != v {
+							o.FailAt(f.ID+"#state-read-before-transition", f.Where(v.Pos()), "addHTLCs reads the HTLC's state (%s) before resolveHtlc at %s applies this update's transition: the tally sees the old state", an.Text(v.Node), rc.Where())
+						}
+					}
+				}
+			}
 			n := 0
 			for _, v := range f.Graph().V {
 				as, ok := v.Node.(*ast.AssignStmt)
